@@ -711,6 +711,8 @@ class _Recipes(object):
         add('OperatorComp', 'A o alias', lambda: O.OperatorComp(A(), self.alias()))
         add('OperatorComp', 'alias o A', lambda: O.OperatorComp(self.alias(), A()))
         add('OperatorComp', 'tmp', lambda: O.OperatorComp(A(), B(), tmp=sp.element()))
+        add('OperatorComp', 'M o A', lambda: O.OperatorComp(odl.MatrixOperator(self.mat(n, n)), A()))
+        add('OperatorComp', 'M o M', lambda: O.OperatorComp(odl.MatrixOperator(self.mat(n, n)), odl.MatrixOperator(self.mat(n, n))))
         add('OperatorComp', 'f o A', lambda: O.OperatorComp(f(), A()))
         add('OperatorPointwiseProduct', 'A*B', lambda: O.OperatorPointwiseProduct(A(), B()))
         add('OperatorPointwiseProduct', 'alias*A', lambda: O.OperatorPointwiseProduct(self.alias(), A()))
